@@ -24,6 +24,7 @@ import sys
 import time
 
 V = os.path.dirname(os.path.dirname(os.path.abspath(__file__)))
+REPO = os.environ.get("VERIF_REPO", "/repo")
 C = V + "/.cache"
 BIN = C + "/bin"
 DRIVER = C + "/ocaml/driver"
@@ -107,7 +108,7 @@ def tracing_site_audit():
         r"^let nursery = nursery$",
         r"^\w+: Instrument \+ fmt::Debug \+ 'static,$",
     ]
-    for f in sorted(glob.glob("/repo/src/*.rs")):
+    for f in sorted(glob.glob(REPO + "/src/*.rs")):
         lines = open(f).read().splitlines()
         for n, line in enumerate(lines):
             if re.search(r'#\[cfg\(feature = "tracing"\)\]', line):
@@ -116,7 +117,56 @@ def tracing_site_audit():
                 nxt = rest if rest else lines[n + 1].strip()
                 if not any(re.match(a, nxt) for a in allowed):
                     problems.append("%s:%d: item gated on the tracing feature is not a span/Debug item: %s"
-                                    % (os.path.relpath(f, "/repo"), n + 1, nxt))
+                                    % (os.path.relpath(f, REPO), n + 1, nxt))
+    return problems
+
+
+def macro_args_audit():
+    """the premise of Tracing.v's theorem on the current source: in every trace!/call!/instrument! invocation the
+    arguments after the format string are identifiers, `name = identifier`, literals or macro metavariables -
+    nothing that could have an effect (no call, no method, no operator, no block)"""
+    import glob
+    problems = []
+    simple = re.compile(r"^\s*(?:\w+\s*=\s*)?(?:\$?\w+|&?\w+|\d+|\"[^\"]*\")\s*$")
+    for f in sorted(glob.glob(REPO + "/src/*.rs")):
+        src = open(f).read()
+        for m in re.finditer(r"\b(trace|call|instrument)!\s*\(", src):
+            if src[max(0, m.start() - 13):m.start()].endswith("macro_rules! ") or "::tracing::" in src[max(0, m.start() - 12):m.start()]:
+                continue
+            # find the matching parenthesis
+            depth, i = 1, m.end()
+            while i < len(src) and depth:
+                depth += src[i] in "([{"
+                depth -= src[i] in ")]}"
+                i += 1
+            body = src[m.end():i - 1]
+            # split top-level commas
+            parts, d, cur = [], 0, ""
+            for ch in body:
+                if ch in "([{":
+                    d += 1
+                if ch in ")]}":
+                    d -= 1
+                if ch == "," and d == 0:
+                    parts.append(cur); cur = ""
+                else:
+                    cur += ch
+            if cur.strip():
+                parts.append(cur)
+            kind = m.group(1)
+            # call!(callee, message, "fmt", args..): callee/message are the real code; trace!("fmt", args..);
+            # instrument!(parent: e, "name"[, ident]) / (follows_from: e, "name"[, ident])
+            if kind == "call":
+                args = parts[3:]
+            elif kind == "trace":
+                args = parts[1:]
+            else:
+                args = [re.sub(r"^\s*(parent|follows_from)\s*:", "", a) for a in parts]
+            line = src.count("\n", 0, m.start()) + 1
+            for a in args:
+                if not simple.match(a.strip()):
+                    problems.append("%s:%d: %s! argument is not a plain identifier/literal: %s"
+                                    % (os.path.relpath(f, REPO), line, kind, " ".join(a.split())[:80]))
     return problems
 
 
@@ -147,6 +197,10 @@ def c20_extra(spec, scripts, real, variant, tier):
     cov["builds_compared"] = ["default features", "--features tracing (no subscriber)",
                               "--features tracing + tracing-subscriber installed at TRACE level"]
     cov["static_tracing_site_audit"] = tracing_site_audit()
+    cov["macro_argument_purity_audit"] = macro_args_audit()
+    if cov["macro_argument_purity_audit"] and not viols:
+        # the premise of C20_tracing_inert no longer holds of the source and no differing trace was found
+        viols.append(("(static)", "C20:ImpureMacroArg:nfi", dict(problems=cov["macro_argument_purity_audit"])))
     cov["programs"] = len(scripts)
     cov["disagreements_checked"] = 2 * len(scripts)
     return viols, cov
@@ -655,7 +709,8 @@ def seq_check(prop, tier, seed, t0, spec=None):
     for s, tok, payload in extra_viols[:3]:
         path = write_replay(prop, dict(kind="failing-history", property=prop, script=s, violations=[tok],
                                        variant=variant, seed=seed, detail=payload))
-        out_lines.append("VIOLATION property=%s replay=%s" % (prop, path))
+        out_lines.append("VIOLATION property=%s replay=%s%s"
+                         % (prop, path, " no-failing-input-found" if tok.endswith(":nfi") else ""))
         status = 1
         nviol += 1
     # 2. broken obligations without a failing input
